@@ -222,6 +222,9 @@ class BaseFileLock(abc.ABC):
         if not self.is_locked:
             return
 
+        # A forced release gives up every level of a reentrant lock
+        levels = max(1, self._lock_counter) if force else 1
+
         self._decrement_lock_counter()
 
         if self._lock_counter == 0 or force:
@@ -237,10 +240,11 @@ class BaseFileLock(abc.ABC):
                 self._lock_counter = 0
                 _logger.info('Lock %s released on %s', lid, fn)
 
-        try:
-            self._thread_lock.release()
-        except RuntimeError:  # not reentrant and already unlocked
-            pass
+        for _ in range(levels):
+            try:
+                self._thread_lock.release()
+            except RuntimeError:  # not reentrant and already unlocked
+                break
 
     # Open mode for the file descriptor
     _FD_OPEN_MODE: ClassVar[int] = os.O_RDWR | os.O_CREAT | os.O_TRUNC
